@@ -478,8 +478,96 @@ func ciEqual(x, y proto.ClientInfo) bool {
 	return sx.TraceID() == sy.TraceID() && sx.SpanID() == sy.SpanID() && sx.TraceFlags() == sy.TraceFlags() && sx.TraceState().String() == sy.TraceState().String()
 }
 
+// string fields longer than the reader's buffer (128 KiB): the bytes on the wire contain the value verbatim after its length,
+// and decoding gives the value back and consumes exactly the message.  (The model driver is not fed megabytes; these cases
+// are judged by the encoding rule of a string — uvarint length, then the bytes — and by the round trip.)
+func c17LongStrings(c *Ctx) {
+	R := c.R
+	r := c.Rng.Fork()
+	for _, n := range []int{131071, 131072, 131073, 262144, 262145, 300001, 1 << 20} {
+		if !c.Thorough && n > 300001 {
+			continue
+		}
+		long := string(r.Bytes(n))
+		type tc struct {
+			name string
+			enc  func(b *proto.Buffer)
+			dec  func(rd *proto.Reader) (string, error)
+		}
+		cases := []tc{
+			{"Exception.Stack", func(b *proto.Buffer) {
+				e := proto.Exception{Code: 60, Name: "DB::Exception", Message: "m", Stack: long}
+				e.EncodeAware(b, 54460)
+			}, func(rd *proto.Reader) (string, error) {
+				var e proto.Exception
+				err := e.DecodeAware(rd, 54460)
+				return e.Stack, err
+			}},
+			{"ClientHello.Password", func(b *proto.Buffer) {
+				h := proto.ClientHello{Name: "n", Major: 1, Minor: 2, ProtocolVersion: 54460, Database: "d", User: "u", Password: long}
+				h.Encode(b)
+			}, func(rd *proto.Reader) (string, error) {
+				if _, err := rd.UVarInt(); err != nil {
+					return "", err
+				}
+				var h proto.ClientHello
+				err := h.Decode(rd)
+				return h.Password, err
+			}},
+			{"TableColumns.Second", func(b *proto.Buffer) {
+				t := proto.TableColumns{First: "f", Second: long}
+				t.EncodeAware(b, 54460)
+			}, func(rd *proto.Reader) (string, error) {
+				if _, err := rd.UVarInt(); err != nil { // the packet code written by EncodeAware
+					return "", err
+				}
+				var t proto.TableColumns
+				err := t.DecodeAware(rd, 54460)
+				return t.Second, err
+			}},
+		}
+		for _, k := range cases {
+			cs := map[string]any{"field": k.name, "string_bytes": n}
+			R.Case(fmt.Sprintf("long-string|%s|%d", k.name, n), true)
+			R.Count("shape:long-string")
+			var b proto.Buffer
+			if p, msg := safely(func() { k.enc(&b) }); p {
+				R.Violate(Violation{Kind: "oracle", Key: "encode-panic:" + k.name, What: "encoder panicked: " + msg, Case: cs})
+				continue
+			}
+			if !bytes.Contains(b.Buf, append(putUvarint(nil, uint64(n)), long...)) {
+				R.Violate(Violation{Kind: "oracle", Key: "roundtrip-value:" + k.name, What: fmt.Sprintf("the encoding does not contain the %d-byte value after its length", n), Case: cs})
+				continue
+			}
+			rd := proto.NewReader(bytes.NewReader(append(append([]byte(nil), b.Buf...), 0xEE)))
+			var got string
+			var derr error
+			if p, msg := safely(func() { got, derr = k.dec(rd) }); p {
+				R.Violate(Violation{Kind: "oracle", Key: "decode-panic:" + k.name, What: "decoder panicked: " + msg, Case: cs})
+				continue
+			}
+			if derr != nil {
+				R.Violate(Violation{Kind: "oracle", Key: "roundtrip-decode-error:" + k.name, What: "decoding the library's own encoding failed: " + derr.Error(), Case: cs})
+				continue
+			}
+			if got != long {
+				first := 0
+				for first < len(got) && first < len(long) && got[first] == long[first] {
+					first++
+				}
+				R.Violate(Violation{Kind: "oracle", Key: "roundtrip-value:" + k.name, What: fmt.Sprintf("a %d-byte string came back different (length %d, first difference at byte %d)", n, len(got), first), Case: cs})
+				continue
+			}
+			if rest, _ := io.ReadAll(rd); len(rest) != 1 || rest[0] != 0xEE {
+				R.Violate(Violation{Kind: "oracle", Key: "roundtrip-consumption:" + k.name, What: fmt.Sprintf("%d bytes left unread, want the 1 trailing byte", len(rest)), Case: cs})
+			}
+		}
+	}
+}
+
 func runC17(c *Ctx) {
 	R := c.R
+	defer c17LongStrings(c)
 	R.Rule = "ten message kinds x field values from a boundary pool (empty/long/non-UTF8 strings, 0/max/negative integers, every enum member, valid and invalid span contexts, settings with every flag combination) x revisions {both neighbours of every feature threshold, interval midpoints, 0, 2^31; every revision 50000..54500 in thorough} x {empty, non-empty} output buffer x trailing bytes; a separate malformed stream (non-TCP interface, unknown enum values, empty setting keys) is compared model-vs-code only. non-trivial = encodes to more than one byte; distinct by (message, revision, bytes)."
 	r := c.Rng
 	revs := c17Revisions(false)
